@@ -8,6 +8,18 @@ Open Scope Z_scope.
 
 Definition bounded (ch : rchan) : Prop := Z.of_nat (length (rc_recving ch)) <= rc_cap ch.
 
+(* ch.recving as a Go slice (nil or not): the bytes do not depend on nil-ness *)
+Arguments rc_recving : simpl never.
+
+Lemma sl_bytes_append : forall s d, sl_bytes (go_append s d) = sl_bytes s ++ d.
+Proof. intros [b|] d; cbn; [reflexivity|]. destruct d; reflexivity. Qed.
+
+Lemma sl_bytes_reslice0 : forall s, sl_bytes (go_reslice0 s) = [].
+Proof. intros [b|]; reflexivity. Qed.
+
+Lemma go_append_nonnil : forall s d, s <> None -> go_append s d = Some (sl_bytes s ++ d).
+Proof. intros [b|] d H; [reflexivity | contradiction]. Qed.
+
 Lemma find_rchan_In : forall chs c ch, find_rchan chs c = Some ch -> In ch chs /\ rc_id ch = c.
 Proof.
   induction chs as [|x r IH]; cbn; intros c ch E; [discriminate|].
@@ -29,8 +41,10 @@ Proof.
   unfold recv_packet_msg, bounded. intros ch eof data ch' res Hc E Hb.
   destruct (rc_cap ch <? _) eqn:Ecap.
   - injection E as <- <-. auto.
-  - apply Z.ltb_ge in Ecap. destruct eof; injection E as <- <-; cbn; split; auto; try lia.
-    rewrite app_length. lia.
+  - apply Z.ltb_ge in Ecap. unfold rc_recving in *.
+    destruct eof; injection E as <- <-; cbn [rc_buf rc_cap]; split; auto.
+    + rewrite sl_bytes_reslice0. cbn. lia.
+    + rewrite sl_bytes_append, app_length. lia.
 Qed.
 
 Definition recv_ok (r : receiver) : Prop := Forall (fun ch => 0 <= rc_cap ch /\ bounded ch) (r_chans r).
@@ -59,7 +73,7 @@ Qed.
 Lemma new_receiver_ok : forall descs, Forall (fun d => 0 <= snd d) descs -> recv_ok (new_receiver descs).
 Proof.
   unfold recv_ok, new_receiver; cbn. intros descs H. rewrite Forall_map.
-  eapply Forall_impl; [|exact H]. cbn. intros d Hd. unfold bounded; cbn. split; lia.
+  eapply Forall_impl; [|exact H]. cbn. intros d Hd. unfold bounded, rc_recving; cbn. split; lia.
 Qed.
 
 (* recv_buffer_bounded *)
@@ -93,7 +107,7 @@ Proof.
   destruct (find_rchan (r_chans r) (p_ch p)) as [ch|] eqn:Ef; [|reflexivity].
   unfold recv_packet_msg.
   destruct (rc_cap ch <? _); [reflexivity|].
-  destruct (p_eof p); cbn; eapply set_rchan_ids_caps; eauto.
+  destruct (p_eof p); [destruct (go_append (rc_buf ch) (p_data p))|]; cbn; eapply set_rchan_ids_caps; eauto.
 Qed.
 
 Lemma recv_items_descs : forall l r,
@@ -134,7 +148,78 @@ Proof.
   destruct it; try discriminate; try assumption.
   destruct ((p_ch p <? 0) || (255 <? p_ch p)); [discriminate|]. cbn in Hb.
   destruct (find_rchan (r_chans r) (p_ch p)) as [ch|]; [|discriminate].
-  unfold recv_packet_msg. rewrite Hb. destruct (p_eof p); reflexivity.
+  unfold recv_packet_msg. rewrite Hb.
+  destruct (p_eof p); [destruct (go_append (rc_buf ch) (p_data p))|]; reflexivity.
+Qed.
+
+(* ---------------------------------------------------------------- the buffer is never nil *)
+
+(* newChannel makes ch.recving with make([]byte, 0, cap): not nil; append and [:0] keep it so.
+   recvRoutine hands a completed message to onReceive only when `msgBytes != nil`: this
+   invariant is what makes a completed EMPTY message reach onReceive. *)
+Definition nonnil (rc : rchan) : Prop := rc_buf rc <> None.
+Definition recv_nonnil (r : receiver) : Prop := Forall nonnil (r_chans r).
+
+Lemma recv_packet_msg_nonnil : forall ch eof data ch' res,
+  recv_packet_msg ch eof data = (ch', res) -> nonnil ch -> nonnil ch'.
+Proof.
+  unfold recv_packet_msg, nonnil. intros ch eof data ch' res E H.
+  destruct (rc_cap ch <? _); [injection E as <- <-; exact H|].
+  rewrite (go_append_nonnil _ _ H) in E.
+  destruct eof; injection E as <- <-; cbn; discriminate.
+Qed.
+
+Lemma recv_item_nonnil : forall r it, recv_nonnil r -> recv_nonnil (recv_item r it).
+Proof.
+  unfold recv_nonnil, recv_item. intros r it H.
+  destruct (r_stopped r); [assumption|].
+  destruct it; try assumption.
+  destruct ((p_ch p <? 0) || (255 <? p_ch p)); [assumption|].
+  destruct (find_rchan (r_chans r) (p_ch p)) as [ch|] eqn:Ef; [|assumption].
+  destruct (recv_packet_msg ch (p_eof p) (p_data p)) as [ch' res] eqn:Er.
+  apply find_rchan_In in Ef as [Hin _].
+  assert (Hch : nonnil ch) by (rewrite Forall_forall in H; auto).
+  pose proof (recv_packet_msg_nonnil _ _ _ _ _ Er Hch) as Hn.
+  destruct res; cbn; try assumption; apply set_rchan_Forall; auto.
+Qed.
+
+Lemma recv_items_nonnil : forall l r, recv_nonnil r -> recv_nonnil (recv_items r l).
+Proof.
+  induction l as [|it l IH]; intros r H; [assumption|].
+  change (recv_items r (it :: l)) with (recv_items (recv_item r it) l). apply IH, recv_item_nonnil, H.
+Qed.
+
+Lemma new_receiver_nonnil : forall descs, recv_nonnil (new_receiver descs).
+Proof.
+  unfold recv_nonnil, new_receiver; cbn. intros descs. rewrite Forall_map.
+  apply Forall_forall. intros d _. unfold nonnil; cbn. discriminate.
+Qed.
+
+(* every EOF packet that is not bad input completes exactly one message — the buffered bytes
+   followed by the packet's, be they empty — and onReceive gets it *)
+Lemma eof_packet_delivers : forall r p,
+  recv_nonnil r -> r_stopped r = false -> item_bad r (WMsg p) = false -> p_eof p = true ->
+  exists rc, find_rchan (r_chans r) (p_ch p) = Some rc /\
+    r_stopped (recv_item r (WMsg p)) = false /\
+    r_delivered (recv_item r (WMsg p)) = r_delivered r ++ [(p_ch p, rc_recving rc ++ p_data p)].
+Proof.
+  unfold recv_item, item_bad. intros r p HN Hs Hb He. rewrite Hs.
+  destruct ((p_ch p <? 0) || (255 <? p_ch p)); [discriminate|]. cbn in Hb.
+  destruct (find_rchan (r_chans r) (p_ch p)) as [ch|] eqn:Ef; [|discriminate].
+  exists ch. split; [reflexivity|].
+  apply find_rchan_In in Ef as [Hin _].
+  assert (Hch : nonnil ch) by (unfold recv_nonnil in HN; rewrite Forall_forall in HN; auto).
+  unfold recv_packet_msg. rewrite Hb, He, (go_append_nonnil _ _ Hch). split; reflexivity.
+Qed.
+
+Lemma eof_packet_delivers_from_new : forall descs items p,
+  let r := recv_items (new_receiver descs) items in
+  r_stopped r = false -> item_bad r (WMsg p) = false -> p_eof p = true ->
+  exists rc, find_rchan (r_chans r) (p_ch p) = Some rc /\
+    r_stopped (recv_item r (WMsg p)) = false /\
+    r_delivered (recv_item r (WMsg p)) = r_delivered r ++ [(p_ch p, rc_recving rc ++ p_data p)].
+Proof.
+  intros descs items p r. apply eof_packet_delivers. apply recv_items_nonnil, new_receiver_nonnil.
 Qed.
 
 (* bad_packet_stops_peer_only *)
@@ -511,9 +596,9 @@ Section Fifo.
   Lemma wire_on_cons_other : forall c p w, p_ch p <> c -> wire_on c (p :: w) = wire_on c w.
   Proof. intros c p w H. unfold wire_on; cbn. destruct (p_ch p =? c) eqn:E; [apply Z.eqb_eq in E; contradiction | reflexivity]. Qed.
 
-  Lemma step_recv_Inv : forall s, Inv s -> Inv (step maxsz s ORecv).
+  Lemma step_recv_Inv : forall s, recv_nonnil (s_recv s) -> Inv s -> Inv (step maxsz s ORecv).
   Proof.
-    intros s HI. unfold step, step_with. destruct (s_wire s) as [|p w] eqn:Ew; [exact HI|].
+    intros s HN HI. unfold step, step_with. destruct (s_wire s) as [|p w] eqn:Ew; [exact HI|].
     destruct HI as (Hs & Hr & Hw & Hrun & Hstop). rewrite Ew in *.
     inversion Hw as [|? ? Hp Hw']; subst.
     destruct (r_stopped (s_recv s)) eqn:Est.
@@ -524,9 +609,11 @@ Section Fifo.
       + intros Hns. congruence.
       + intros _ c Hc. exact (Hstop eq_refl c Hc).
     - destruct (Hrun eq_refl _ Hp) as (sc0 & rc0 & F1 & F2 & F3 & F4).
-      destruct (find_rchan_In _ _ _ F2) as [_ Hid0].
+      destruct (find_rchan_In _ _ _ F2) as [Hin0 Hid0].
+      assert (Hnn0 : nonnil rc0) by (unfold recv_nonnil in HN; rewrite Forall_forall in HN; auto).
       unfold recv_item. rewrite Est. cbn match. rewrite (in_ids_byte _ Hp), F2.
-      unfold recv_packet_msg.
+      unfold recv_packet_msg. rewrite (go_append_nonnil _ _ Hnn0).
+      change (sl_bytes (rc_buf rc0)) with (rc_recving rc0).
       destruct (rc_cap rc0 <? _) eqn:Ecap.
       + (* over capacity: stopForError *)
         split; [exact Hs|]. split; [exact Hr|]. split; [exact Hw'|].
@@ -537,7 +624,8 @@ Section Fifo.
       + rewrite Ew in F3, F4. rewrite wire_on_cons_same in F3, F4.
         destruct (p_eof p) eqn:Eeof.
         * (* message complete: delivered *)
-          set (rc' := {| rc_id := rc_id rc0; rc_cap := rc_cap rc0; rc_recving := [] |}).
+          cbn [go_reslice0].
+          set (rc' := {| rc_id := rc_id rc0; rc_cap := rc_cap rc0; rc_buf := Some [] |}).
           split; [exact Hs|].
           split; [cbn; rewrite set_rchan_ids by exact Hid0; exact Hr|].
           split; [exact Hw'|].
@@ -546,7 +634,7 @@ Section Fifo.
           rewrite (find_rchan_set _ (p_ch p) rc' c Hid0), F2, on_chan_app, on_chan_single.
           destruct (Z.eq_dec c (p_ch p)) as [->|Hne].
           -- rewrite !Z.eqb_refl. exists sc0, rc'. split; [exact F1|]. split; [reflexivity|].
-             unfold pending_of in *. cbn [rc_recving rc'].
+             unfold pending_of in *. change (rc_recving rc') with (@nil N).
              rewrite (reasm_cons_eof _ _ _ Eeof) in F3, F4. cbn [fst snd] in F3, F4.
              split; [|exact F4]. rewrite F3. cbn [fst snd]. now rewrite <- app_assoc.
           -- destruct (Hrun eq_refl c Hc) as (sc & rc & G1 & G2 & G3 & G4).
@@ -555,7 +643,7 @@ Section Fifo.
              rewrite Ec, Ec', app_nil_r. rewrite Ew in G3, G4. rewrite wire_on_cons_other in G3, G4 by congruence.
              exists sc, rc. auto.
         * (* partial message: buffered *)
-          set (rc' := {| rc_id := rc_id rc0; rc_cap := rc_cap rc0; rc_recving := rc_recving rc0 ++ p_data p |}).
+          set (rc' := {| rc_id := rc_id rc0; rc_cap := rc_cap rc0; rc_buf := Some (rc_recving rc0 ++ p_data p) |}).
           split; [exact Hs|].
           split; [cbn; rewrite set_rchan_ids by exact Hid0; exact Hr|].
           split; [exact Hw'|].
@@ -564,7 +652,7 @@ Section Fifo.
           rewrite (find_rchan_set _ (p_ch p) rc' c Hid0), F2.
           destruct (Z.eq_dec c (p_ch p)) as [->|Hne].
           -- rewrite !Z.eqb_refl. exists sc0, rc'. split; [exact F1|]. split; [reflexivity|].
-             unfold pending_of in *. cbn [rc_recving rc'].
+             unfold pending_of in *. change (rc_recving rc') with (rc_recving rc0 ++ p_data p).
              rewrite (reasm_cons_noeof _ _ _ Eeof) in F3, F4. auto.
           -- destruct (Hrun eq_refl c Hc) as (sc & rc & G1 & G2 & G3 & G4).
              assert (Ec : (c =? p_ch p) = false) by now apply Z.eqb_neq.
@@ -572,10 +660,24 @@ Section Fifo.
              exists sc, rc. auto.
   Qed.
 
-  Lemma step_Inv : forall s o, Inv s -> Inv (step maxsz s o).
-  Proof. intros s [c m|k|] H; [apply step_send_Inv | apply step_step_Inv | apply step_recv_Inv]; exact H. Qed.
+  (* the invariant together with "no receive buffer is nil" *)
+  Definition InvN (s : sys) : Prop := Inv s /\ recv_nonnil (s_recv s).
 
-  Lemma run_Inv : forall ops s, Inv s -> Inv (run maxsz s ops).
+  Lemma step_nonnil : forall s o, recv_nonnil (s_recv s) -> recv_nonnil (s_recv (step maxsz s o)).
+  Proof.
+    intros s [c m|k|] H; unfold step, step_with.
+    - destruct (send_to (s_send s) c m) as [chs ok]. exact H.
+    - destruct (send_packet_msg_with _ _ _ _) as [[chs pk] e]. exact H.
+    - destruct (s_wire s) as [|p w]; [exact H|]. cbn [s_recv]. apply recv_item_nonnil, H.
+  Qed.
+
+  Lemma step_Inv : forall s o, InvN s -> InvN (step maxsz s o).
+  Proof.
+    intros s o [H HN]. split; [|apply step_nonnil, HN].
+    destruct o as [c m|k|]; [apply step_send_Inv | apply step_step_Inv | apply step_recv_Inv]; assumption.
+  Qed.
+
+  Lemma run_Inv : forall ops s, InvN s -> InvN (run maxsz s ops).
   Proof.
     induction ops as [|o ops IH]; intros s H; [exact H|].
     change (run maxsz s (o :: ops)) with (run maxsz (step maxsz s o) ops). apply IH, step_Inv, H.
@@ -624,9 +726,10 @@ Proof.
   destruct H as [H|H]; [apply Z.eqb_neq in E; contradiction | auto].
 Qed.
 
-Lemma init_Inv : forall descs, Inv (ids_of descs) (init_sys descs).
+Lemma init_Inv : forall descs, InvN (ids_of descs) (init_sys descs).
 Proof.
-  intros descs. unfold Inv. split; [|split; [|split; [|split]]].
+  intros descs. split; [|apply new_receiver_nonnil].
+  unfold Inv. split; [|split; [|split; [|split]]].
   - unfold init_sys, ids_of; cbn. rewrite map_map. reflexivity.
   - unfold init_sys, ids_of, new_receiver; cbn. rewrite !map_map. reflexivity.
   - constructor.
@@ -646,7 +749,7 @@ Lemma per_channel_fifo_prefix : forall maxsz descs ops c,
   exists rest, on_chan c (s_accepted s) = on_chan c (r_delivered (s_recv s)) ++ rest.
 Proof.
   intros maxsz descs ops c Hnd Hb Hc s.
-  exact (Inv_prefix _ _ _ (run_Inv maxsz _ Hnd Hb ops _ (init_Inv descs)) Hc).
+  exact (Inv_prefix _ _ _ (proj1 (run_Inv maxsz _ Hnd Hb ops _ (init_Inv descs))) Hc).
 Qed.
 
 (* per_channel_fifo, completeness half: when nothing is left in queues, in progress or on the
@@ -658,7 +761,7 @@ Lemma per_channel_fifo_complete : forall maxsz descs ops c,
   on_chan c (r_delivered (s_recv s)) = on_chan c (s_accepted s).
 Proof.
   intros maxsz descs ops c Hnd Hb Hc s Hns Hq.
-  exact (quiescent_complete _ _ _ (run_Inv maxsz _ Hnd Hb ops _ (init_Inv descs)) Hc Hns Hq).
+  exact (quiescent_complete _ _ _ (proj1 (run_Inv maxsz _ Hnd Hb ops _ (init_Inv descs))) Hc Hns Hq).
 Qed.
 
 (* ================================================================== no spurious disconnect *)
@@ -711,7 +814,7 @@ Section NoStop.
   Hypothesis dl_nonneg : forall c cap, cap_of dl c = Some cap -> 0 <= cap.
 
   Definition Good (s : sys) : Prop :=
-    Inv ids s /\ rdescs (s_recv s) = dl /\ fits_acc dl (s_accepted s) /\ r_stopped (s_recv s) = false.
+    InvN ids s /\ rdescs (s_recv s) = dl /\ fits_acc dl (s_accepted s) /\ r_stopped (s_recv s) = false.
 
   Lemma step_Good : forall s o, Good s -> op_fits dl o -> Good (step maxsz s o).
   Proof.
@@ -734,7 +837,7 @@ Section NoStop.
       cbn [s_recv s_accepted].
       split; [unfold rdescs; rewrite recv_item_descs; exact Hd|]. split; [exact Hf|].
       apply good_item_keeps; [exact Hns|].
-      destruct HI as (Hs & Hr & Hw & Hrun & Hstop). rewrite Ew in Hw.
+      destruct HI as ((Hs & Hr & Hw & Hrun & Hstop) & HN). rewrite Ew in Hw.
       pose proof (Forall_inv Hw) as Hp. cbn in Hp.
       destruct (Hrun Hns _ Hp) as (sc0 & rc0 & F1 & F2 & F3 & F4).
       unfold item_bad. rewrite (in_ids_byte ids ids_byte _ Hp), F2. cbn.
@@ -959,7 +1062,7 @@ Proof.
   destruct G2 as (HI & _ & _ & Hns).
   assert (Hq : quiescent s' = true) by (apply drain_quiescent; [exact Hm | lia]).
   split; [exact Hns|]. split; [exact Hq|].
-  rewrite (quiescent_complete _ _ _ HI Hc Hns Hq). unfold s'. now rewrite drain_accepted.
+  rewrite (quiescent_complete _ _ _ (proj1 HI) Hc Hns Hq). unfold s'. now rewrite drain_accepted.
 Qed.
 
 (* ================================================================== layer B: validated => in bounds *)
